@@ -106,8 +106,9 @@ package ctpolicy
 //@ loop-frames
 //@ site weightedRandomSample#1 as ws
 //@ site RLock#1 as rl
+//@ site RUnlock#1 as ru
 //@ requires group != nil
-//@ loop 1 invariant [weights-are-copied-under-the-read-lock] rl.called
+//@ loop 1 invariant [weights-are-copied-while-the-read-lock-is-held] rl.called && !ru.called
 //@ loop 1 invariant forall s string :: has(unProcessedWeights, s) ==> has(group.LogWeights, s)
 //@ loop 2 invariant forall s string :: has(unProcessedWeights, s) ==> has(group.LogWeights, s)
 //@ loop 2 invariant forall j int :: 0 <= j && j < len(session) ==> !has(unProcessedWeights, session[j]) && has(group.LogWeights, session[j])
@@ -125,15 +126,17 @@ package ctpolicy
 //@ props C17
 //@ arith int
 //@ site Lock#1 as lk
+//@ site Unlock#1 as ul
 //@ requires group != nil
-//@ loop 1 invariant [weights-are-copied-under-the-lock] lk.called
+//@ loop 1 invariant [weights-are-copied-while-the-lock-is-held] lk.called && !ul.called
 //@ ensures [weights-change-only-under-the-write-lock] group.LogWeights != old(group.LogWeights) ==> lk.called
 
 //@ func (*LogGroupInfo).SetLogWeights
 //@ props C17
 //@ arith int
 //@ site Lock#1 as lk
+//@ site Unlock#1 as ul
 //@ requires group != nil
 //@ requires group.LogWeights != nil
-//@ loop 2 invariant [weights-are-reset-under-the-write-lock] lk.called && group.LogWeights != nil
-//@ loop 3 invariant [weights-are-written-under-the-write-lock] lk.called && group.LogWeights != nil
+//@ loop 2 invariant [weights-are-reset-while-the-write-lock-is-held] lk.called && !ul.called && group.LogWeights != nil
+//@ loop 3 invariant [weights-are-written-while-the-write-lock-is-held] lk.called && !ul.called && group.LogWeights != nil
